@@ -18,6 +18,14 @@ Theorem C03_imod_no_ub : forall m t checked a b, m_wrapv m = true -> In t signed
 Proof. exact h_imod_no_ub. Qed.
 Print Assumptions C03_imod_no_ub.
 
+(* the same for the helpers exactly as the generator emits them, checked and unchecked: the position of
+   the `b == -1` guard is scraped; moving it into the checked branch breaks this proof *)
+Theorem C03_emitted_div_helpers_no_ub : forall m t checked a b, m_wrapv m = true -> In t signed_types ->
+  in_ity t a -> in_ity t b -> (checked = true \/ b <> 0) ->
+  emitted_idiv_helper idiv_guard_first m t checked a b <> OUB /\ emitted_imod_helper imod_guard_first m t checked a b <> OUB.
+Proof. exact emitted_div_helpers_no_ub. Qed.
+Print Assumptions C03_emitted_div_helpers_no_ub.
+
 (* logical shifts: every count of the count type, every C dialect (even strict ISO) *)
 Theorem C03_shl_no_ub : forall m t a b, ity_ok t -> in_ity t a -> in_ity (to_signed t) b -> h_shl m t a b <> OUB.
 Proof. exact h_shl_no_ub. Qed.
@@ -69,17 +77,24 @@ Theorem C03_layout_agrees_refuted : ~ layout_agrees_full.
 Proof. exact layout_agrees_refuted. Qed.
 Print Assumptions C03_layout_agrees_refuted.
 
-(* for every well-formed type tree (wfb: primitives of the table, arrays of >= 1 element, power-of-two
-   user alignments, no `aligned` record of size zero), nested arbitrarily: the emitted static assertion
-   holds, sizes coincide and every record field offset coincides *)
+(* for every well-formed type tree (wfb: primitives of the table, arrays of any length including 0,
+   packed records, power-of-two user alignments on records with at least one field, unions of
+   non-zero size), nested arbitrarily: size AND alignment coincide outright - zero-size records
+   included, full strength since the repair 61ca8bb -, hence the emitted static assertion holds, and
+   every record field offset coincides *)
 Theorem C03_layout_agrees_partial : forall t, wfb t = true ->
-  static_assert_holds t = true /\ fst (nl t) = fst (cl t) /\
+  nl t = cl t /\ static_assert_holds t = true /\
   (forall fs packed aligned, t = TRec fs packed aligned -> nl_offsets fs packed = cl_offsets fs packed).
 Proof.
-  intros t H. split; [apply static_assert_ok; exact H|]. split; [apply (layout_agree t H)|].
+  intros t H. split; [apply (layout_agree t H)|]. split; [apply static_assert_ok; exact H|].
   intros fs packed aligned ->. eapply offsets_ok; exact H.
 Qed.
 Print Assumptions C03_layout_agrees_partial.
+
+(* what is still false: an `aligned` record without fields (and, above, a zero-size union) *)
+Theorem C03_layout_agrees_refuted_aligned_empty : accepted t_witness2 = true /\ static_assert_holds t_witness2 = false.
+Proof. exact layout_agrees_refuted2. Qed.
+Print Assumptions C03_layout_agrees_refuted_aligned_empty.
 
 (* ---- core 3: bytes passed to memcmp by nelua_eq_<type>, full strength ---- *)
 Theorem C03_eq_in_bounds : forall t, wfb t = true -> forall base,
